@@ -1,6 +1,7 @@
 """C09 — equality is an equivalence consistent with !=, map keys and index() (structural clauses)."""
 from ..core import RuleResult
 from ..facts import AnchorMissing, Operand, Place
+from ..facts import Call as Call_
 from .. import an, psa
 from . import common
 
@@ -309,4 +310,139 @@ def rule_e(ctx):
     return r
 
 
-RULES = [rule_a, rule_b, rule_c, rule_d, rule_e]
+# ---------------------------------------------------------------------------------------------
+def _expr(body, op, depth=0):
+    """Expression tree of an operand over the function's arguments (single-definition locals only)."""
+    if depth > 12:
+        return ("?",)
+    if op.place is None:
+        return ("const", repr(op.const_value()) if op.const is not None else "?")
+    if op.place.proj:
+        base = _expr(body, Operand({"k": "copy", "p": {"l": op.place.local}}), depth + 1)
+        return ("proj", tuple(e.get("n", e.get("i", e["k"])) if e["k"] == "field" else e["k"] for e in op.place.proj), base)
+    l = op.place.local
+    if 1 <= l <= body.argc:
+        return ("arg", l)
+    defs = body.defs_of(l)
+    if len(defs) != 1:
+        return ("?",)
+    d = defs[0][2]
+    if isinstance(d, dict):
+        if d["k"] == "use":
+            return _expr(body, Operand(d["op"]), depth + 1)
+        if d["k"] == "binop":
+            return ("bin", d["op"], _expr(body, Operand(d["a"]), depth + 1), _expr(body, Operand(d["b"]), depth + 1))
+        if d["k"] in ("unop", "cast"):
+            return (d["k"], d.get("op") or d.get("ty"), _expr(body, Operand(d.get("a") or d.get("op_") or d.get("x") or d["operand"]), depth + 1)) if any(k in d for k in ("a", "op_", "x", "operand")) else ("?",)
+        if d["k"] == "ref":
+            return _expr(body, Operand({"k": "copy", "p": d["p"]}), depth + 1)
+        return ("?",)
+    if isinstance(d, Call_):
+        return ("call", d.name() or "?", tuple(_expr(body, a, depth + 1) for a in d.args))
+    return ("?",)
+
+
+def _args_of(e):
+    if e[0] == "arg":
+        return {e[1]}
+    out = set()
+    for x in e[1:]:
+        if isinstance(x, tuple):
+            if x and isinstance(x[0], str) and x[0] in ("arg", "const", "bin", "call", "proj", "unop", "cast", "?"):
+                out |= _args_of(x)
+            else:
+                for y in x:
+                    if isinstance(y, tuple):
+                        out |= _args_of(y)
+    return out
+
+
+def _subst(e, frm, to):
+    if e == ("arg", frm):
+        return ("arg", to)
+    return tuple(_subst(x, frm, to) if isinstance(x, tuple) else x for x in e)
+
+
+def _unknown(e):
+    if e == ("?",):
+        return True
+    return any(_unknown(x) for x in e if isinstance(x, tuple))
+
+
+def _is_key_equality(body, rv):
+    """`k(a) == k(b)` with the same expression k applied to argument 1 alone and argument 2 alone."""
+    if rv.get("k") != "binop" or rv.get("op") != "Eq":
+        return None
+    ea, eb = _expr(body, Operand(rv["a"])), _expr(body, Operand(rv["b"]))
+    if _unknown(ea) or _unknown(eb):
+        return None
+    aa, ab = _args_of(ea), _args_of(eb)
+    if aa == {1} and ab == {2} and _subst(ea, 1, 2) == eb:
+        return ea
+    if aa == {2} and ab == {1} and _subst(eb, 1, 2) == ea:
+        return eb
+    return None
+
+
+def rule_f(ctx):
+    r = RuleResult("C09-f", "number equality is induced by a key: fuzzy_equals returns true only under k(a) == k(b) for one function k of a single operand "
+                   "(a partition into buckets, hence transitive), and Number's == is fuzzy_equals on the two magnitudes")
+    prog = ctx.prog()
+    b = prog.one("value::number::fuzzy_equals")
+    key_switch = {}  # switch block -> key expression
+    for bb in range(len(b.blocks)):
+        t = b.term(bb)
+        if t["k"] == "switch" and t["dty"] == "bool" and bb not in b._const_switch:
+            op = Operand(t["d"])
+            if op.place is not None and not op.place.proj:
+                defs = b.defs_of(op.place.local)
+                if len(defs) == 1 and isinstance(defs[0][2], dict):
+                    k = _is_key_equality(b, defs[0][2])
+                    if k is not None:
+                        key_switch[bb] = k
+    n = 0
+    for bb, i, pl, rv, st in b.assignments():
+        if pl.local != 0 or pl.proj:
+            continue
+        n += 1
+        where = "%s:%d" % (b.file, st["span"]["l"])
+        key = "fuzzy_equals|return#%d" % n
+        if rv["k"] == "use" and rv["op"]["k"] == "const":
+            if Operand(rv["op"]).const_value() is False:
+                r.ok(key, returns="false")
+                continue
+            # constant true: must be on the true edge of a key equality
+            ok = False
+            for d, fact, op, dty in an.guard_facts(b, bb):
+                if d in key_switch and ((fact[0] == "not_in" and "0" in fact[1]) or (fact[0] == "in" and fact[1] != ["0"])):
+                    ok = True
+            if ok:
+                r.ok(key, returns="true under key equality")
+            else:
+                r.violate("fuzzy_equals|true-without-key-equality", "fuzzy_equals returns true at %s on a path that is not guarded by an equality k(a) == k(b) of a "
+                          "per-operand key: the relation is then a tolerance window, which is not transitive (a==b, b==c, a!=c)" % where, where)
+            continue
+        src = rv
+        if rv["k"] == "use" and "p" in rv["op"] and not rv["op"]["p"].get("p"):
+            defs = b.defs_of(rv["op"]["p"]["l"])
+            if len(defs) == 1 and isinstance(defs[0][2], dict):
+                src = defs[0][2]
+        if _is_key_equality(b, src) is not None:
+            r.ok(key, returns="k(a) == k(b)", k=repr(_is_key_equality(b, src))[:200])
+        else:
+            r.violate("fuzzy_equals|true-without-key-equality", "fuzzy_equals returns at %s a value that is not an equality k(a) == k(b) of a per-operand key (and is not "
+                      "the constant false): the relation is then a tolerance window, which is not transitive (a==b, b==c, a!=c)" % where, where)
+    r.floor("return sites of fuzzy_equals", n, 2)
+    # Number == is fuzzy_equals(self.0, other.0)
+    eqb = prog.one("<grass_compiler::value::number::Number as std::cmp::PartialEq>::eq")
+    cs = [c for c in eqb.calls()]
+    good = len(cs) == 1 and (cs[0].name() or "").endswith("number::fuzzy_equals") and cs[0].dest is not None and cs[0].dest.local == 0 \
+        and [repr(an.trace_operand(eqb, a)) for a in cs[0].args] == ["arg1.0", "arg2.0"]
+    if good:
+        r.ok("Number::eq|is fuzzy_equals(self.0, other.0)")
+    else:
+        r.violate("Number::eq|delegates", "Number's PartialEq::eq is no longer exactly fuzzy_equals(self.0, other.0): %s" % [(c.name(), [repr(an.trace_operand(eqb, a)) for a in c.args]) for c in cs], eqb.loc())
+    return r
+
+
+RULES = [rule_a, rule_b, rule_c, rule_d, rule_e, rule_f]
